@@ -1,6 +1,6 @@
 (* C18 — property theorems (statements only; proofs are in Proofs_*.v).
-   They describe /repo after commit 329a134 (persistable keys, stale temp files
-   removed, escape-aware label walk). *)
+   They describe /repo after commits 329a134 (persistable keys, stale temp files
+   removed, escape-aware label walk) and dba5ede (the refresh parses downloads only). *)
 From Coq Require Import Permutation.
 From Sdns Require Import Common.Base Gen.C18 C18.Model C18.Spec
   C18.Proofs_match C18.Proofs_disk C18.Proofs_reload C18.Proofs_final.
@@ -127,24 +127,21 @@ Theorem converged_reload_equiv : forall b0 l0 s,
 Proof. exact converged_reload_equiv_lemma. Qed.
 Print Assumptions converged_reload_equiv.
 
-(* the background re-read of the directory (refreshRemote): harmless while nothing is in
-   flight ... *)
-Theorem refresh_idle : forall w v ex wi b,
-  bw b = w -> Permutation ex (bm b) -> Permutation wi (bwild b) ->
-  Forall (good_entry w) (entries_of ex wi) ->
-  parse_bytes (snap_bytes (mk_snap v ex wi)) b = b.
-Proof. exact refresh_idle_lemma. Qed.
-Print Assumptions refresh_idle.
+(* the background refresh (refreshRemote) may land anywhere between the API steps: with no
+   remote list configured the convergence statement holds for those interleavings too *)
+Theorem refresh_convergence : forall b0 l0 s,
+  rsteps (init b0 l0) s -> s_pending s = [] ->
+  (s_version s = 0 /\ s_mem s = b0 /\ s_local s = l0) \/
+  (s_last s = s_version s /\
+   exists ex wi, Permutation ex (bm (s_mem s)) /\ Permutation wi (bwild (s_mem s)) /\
+                 s_local s = Some (snap_bytes (mk_snap (s_version s) ex wi))).
+Proof. exact refresh_convergence_lemma. Qed.
+Print Assumptions refresh_convergence.
 
-(* ... but between a Remove's mutation and its persist() it breaks convergence: refuted —
-   finding blocklist-refresh-readds-removed *)
-Theorem refresh_convergence_refuted :
-  let x := [120; 46; 116; 101; 115; 116; 46] in
-  let s0 := mk_sys (mk_bl [x] [] []) 1 1 (Some (lines_bytes [header; x])) [] in
-  let s1 := snd (sys_mutate (OpRemove x) [] [] s0) in
-  let s3 := sys_persist 0 (sys_refresh s1) in
-  s_pending s3 = [] /\ s_last s3 = s_version s3 /\
-  s_local s3 = Some (lines_bytes [header]) /\ bm (s_mem s3) = [x] /\
-  bm (s_mem (sys_persist 0 s1)) = [] /\ s_local (sys_persist 0 s1) = Some (lines_bytes [header]).
-Proof. exact refresh_convergence_refuted_lemma. Qed.
-Print Assumptions refresh_convergence_refuted.
+(* and with remote lists it only ever adds to memory; file, version and outstanding
+   snapshots are not touched *)
+Theorem refresh_leaves_disk_alone : forall dl s,
+  s_local (sys_refresh dl s) = s_local s /\ s_pending (sys_refresh dl s) = s_pending s /\
+  s_version (sys_refresh dl s) = s_version s /\ s_last (sys_refresh dl s) = s_last s.
+Proof. exact sys_refresh_disk. Qed.
+Print Assumptions refresh_leaves_disk_alone.
